@@ -123,6 +123,10 @@ func c05Sparse(t *rapid.T) []kit.Argv {
 	a := []string{"SADD", "s1"}
 	common := name()
 	a = append(a, common)
+	if rapid.IntRange(0, 2).Draw(t, "tail") == 0 {
+		x, y := tailPair(t)
+		a = append(a, x, y)
+	}
 	for i := rapid.IntRange(2, 8).Draw(t, "na"); i > 0; i-- {
 		a = append(a, name())
 	}
